@@ -81,3 +81,45 @@ Proof.
     [vm_compute; reflexivity|vm_compute; reflexivity|lia|].
   rewrite H. vm_compute. reflexivity.
 Qed.
+
+(* ---- wave 5 ---- *)
+From GL Require Import Lua.DriveRunFacts Lua.CallFreshFacts.
+
+(* unpack(t) after the last element was removed by assignment (t[#t] = nil): exactly t[1..#t] *)
+Definition kv3 : list (value * value) := [(num 1, num 10); (num 2, num 20); (num 3, num 30)].
+Definition st_p : state := with_tabs st (tabs st ++ [mkTab (kv_set kv3 (vint (border kv3)) VNil) None]).
+Example ex_unpack_after_pop :
+  border_unique (t_kv (nth 6 (tabs st_p) empty_tab)) = true /\
+  builtin_call 3 [] BUnpack [VTab 6] st_p = Ret [num 10; num 20] st_p.
+Proof.
+  split; [vm_compute; reflexivity|].
+  rewrite (unpack_default_lemma 2 [] 6 st_p); [vm_compute; reflexivity|vm_compute; reflexivity|vm_compute; discriminate].
+Qed.
+
+(* the arg table: a zero-surplus call of clo_va gets table 6 = {n = 0}; its owner stores arg[1] and
+   arg.n = 1 into it (state st_m); the next zero-surplus call, set up from there, gets table 7 = {n = 0}
+   and table 6 keeps what its owner wrote *)
+Definition st_c1 : state := callee_state st clo_va [].
+Definition st_m : state :=
+  with_tabs st_c1 (firstn 6 (tabs st_c1) ++
+    [mkTab (kv_set (kv_set (t_kv (nth 6 (tabs st_c1) empty_tab)) (vint 1) (VStr [100])) (VStr s_n) (vint 1)) None]).
+Example ex_arg_fresh_hyps :
+  has_arg_table clo_va = true /\ length (tabs st) = 6%nat /\ store_grows st_c1 st_m /\
+  kv_get (t_kv (nth 6 (tabs st_c1) empty_tab)) (VStr s_n) = vint 0.
+Proof.
+  split; [reflexivity|split; [reflexivity|split; [|vm_compute; reflexivity]]].
+  unfold store_grows. vm_compute. repeat split; try lia. exists []. reflexivity.
+Qed.
+Example ex_arg_fresh :
+  let s3 := callee_state st_m clo_va [num 1] in
+  nth 7 (cells s3) VNil = VTab 7 /\
+  kv_get (t_kv (nth 7 (tabs s3) empty_tab)) (VStr s_n) = vint 0 /\
+  kv_get (t_kv (nth 7 (tabs s3) empty_tab)) (vint 1) = VNil /\
+  kv_get (t_kv (nth 6 (tabs s3) empty_tab)) (VStr s_n) = vint 1 /\
+  kv_get (t_kv (nth 6 (tabs s3) empty_tab)) (vint 1) = VStr [100].
+Proof.
+  destruct ex_arg_fresh_hyps as [H1 [_ [Hg _]]].
+  destruct (arg_tables_distinct_lemma st clo_va [] st_m clo_va [num 1] H1 H1 Hg) as [_ [Hc [Ht Ho]]].
+  cbv zeta. split; [exact Hc|]. clear Hc. change (length (tabs st_m)) with 7%nat in Ht. change (length (tabs st)) with 6%nat in Ho.
+  rewrite Ht, Ho. vm_compute. repeat split.
+Qed.
